@@ -43,7 +43,8 @@ META = dict(
     hashseed_sensitive=False,
 )
 
-TL = (200.0, 298.15, 1000.0, 2000.0)  # temperature lattice of the P and X layers
+TL = (200.0, 298.15, 1000.0, 2000.0)  # temperature lattice of the P and X layers (quick; _set_tier rebinds it)
+TREE_TL = (200.0, 298.15, 1000.0, 2000.0)  # temperature lattice of trees without a piecewise leaf (both tiers)
 TT_PW = (200.0, 250.0, 298.15, 500.0, 1000.0, 1500.0, 2000.0)  # trees containing the piecewise leaf: every breakpoint and every interior
 NUMS = (0, 1, 2, 2.5, -1)
 X_ENV = dict(x=1.5, density=0.998, doserate=0.15)
@@ -55,7 +56,8 @@ def bounds(tier):
         tree_depth=3 if tier == "thorough" else 2,
         tree_depth3_partners="all 12 leaves and 5 numbers, both sides" if tier == "thorough" else "quick: depth-3 = unary(depth-2) and (depth-2 op arr), (arr op depth-2)",
         leaves=list(LEAF_NAMES), numbers=[repr(n) for n in NUMS], operators=list(RX.OPS) + ["neg", "Log10", "Exp", "reflected forms"],
-        T_tree=list(TL), T_tree_with_piecewise=list(TT_PW), T_classes=list(TL), modes=["math", "numpy", "sympy-then-substitute", "quantities(Backend())"],
+        T_tree=list(TREE_TL), T_tree_with_piecewise=list(TT_PW), T_classes=list(TIER_LATTICES[tier]["TL"]),
+        A=list(TIER_LATTICES[tier]["A_LAT"]), Ea_or_dH=list(TIER_LATTICES[tier]["EA_LAT"]), dS=list(TIER_LATTICES[tier]["DS_LAT"]), k_roundtrip=list(K_LAT), modes=["math", "numpy", "sympy-then-substitute", "quantities(Backend())"],
         slack=RX.SLACK, rel_floor=REL_FLOOR,
     )
 
@@ -284,7 +286,7 @@ def _check_tree(res, t, modes=("math", "numpy", "sympy", "units")):
     leaves = RX.tree_leaves(t)
     ts = RX.tree_str(t)
     refs = []
-    TT = TT_PW if "pw" in leaves else TL  # every breakpoint and interior of the piecewise leaf / the class-layer lattice
+    TT = TT_PW if "pw" in leaves else TREE_TL  # every breakpoint and interior of the piecewise leaf / the plain lattice
     for T in TT:
         try:
             refs.append(RX.tree_eval(t, lambda n: _leaf_value(n, T)))
@@ -413,6 +415,14 @@ A_LAT = (1e3, 1e13)
 EA_LAT = (0.0, 4e4, 2e5)
 DS_LAT = (-100.0, 50.0)
 K_LAT = (7.5, 3e-4)
+TIER_LATTICES = dict(
+    quick=dict(TL=TL, A_LAT=A_LAT, EA_LAT=EA_LAT, DS_LAT=DS_LAT),
+    thorough=dict(TL=(200.0, 250.0, 298.15, 400.0, 600.0, 1000.0, 1500.0, 2000.0), A_LAT=(1e3, 1e8, 1e13), EA_LAT=(0.0, 1e4, 4e4, 1e5, 2e5), DS_LAT=(-100.0, -20.0, 50.0)),
+)
+
+
+def _set_tier(tier):
+    globals().update(TIER_LATTICES[tier])
 
 
 def _p_plain_backends():
@@ -973,6 +983,7 @@ _N_XSPECS = 29  # asserted in run_chunk
 
 def run_chunk(chunk, tier):
     res = Result()
+    _set_tier(tier)
     kind = chunk[0]
     if kind == "P":
         _run_P(res, chunk[1])
@@ -989,12 +1000,15 @@ def run_chunk(chunk, tier):
         for i, t in enumerate(_trees(tier)):
             if i % n == j:
                 _check_tree(res, t)
+    for v in res.violations:
+        v["case"]["tier"] = tier
     return res
 
 
 # =============================================================================================== replay
 def replay(case):
     res = Result()
+    _set_tier(case.get("tier", "quick"))
     layer = case["layer"]
     if layer == "T":
         _check_tree(res, _unj(case["tree"]), modes=(case["mode"],))
@@ -1008,7 +1022,7 @@ def replay(case):
         spec = [s for s in _x_specs() if s["name"] == case["spec"]][0]
         _run_X(res, spec)
     for v in res.violations:
-        same = all(v["case"].get(k) == case.get(k) for k in case if k in v["case"])
+        same = all(v["case"].get(k) == case.get(k) for k in case if k in v["case"] and k != "tier")
         if same:
             return dict(key=v["key"], what=v["what"], observed=v["observed"], expected=v["expected"])
     return None
